@@ -113,12 +113,15 @@ type ContractDB struct {
 	types  map[string]*TypeContract // key pkgpath + "." + name
 	specs  map[string]*SpecFunc
 	lemmas []*Lemma
+	// axioms: defining equations of uninterpreted spec functions, per package; assumed at the entry of every
+	// function of that package and reported among the assumptions
+	axioms map[string][]*Clause
 	pkgs   map[string]*packages.Package
 	errors []string
 }
 
 func NewContractDB() *ContractDB {
-	return &ContractDB{externs: map[string]*FuncContract{}, funcs: map[string]*FuncContract{}, types: map[string]*TypeContract{}, specs: map[string]*SpecFunc{}, pkgs: map[string]*packages.Package{}}
+	return &ContractDB{externs: map[string]*FuncContract{}, funcs: map[string]*FuncContract{}, types: map[string]*TypeContract{}, specs: map[string]*SpecFunc{}, pkgs: map[string]*packages.Package{}, axioms: map[string][]*Clause{}}
 }
 
 func (db *ContractDB) lookupFunc(fn *ssa.Function) *FuncContract {
@@ -215,7 +218,7 @@ func (db *ContractDB) parseLines(p *packages.Package, file string, lines []srcLi
 			continue
 		}
 		first := firstWord(t)
-		top := first == "func" || first == "type" || first == "spec" || first == "lemma" || first == "interface" || first == "extern"
+		top := first == "func" || first == "type" || first == "spec" || first == "lemma" || first == "interface" || first == "extern" || first == "axiom"
 		if top || clauseKeywords[first] {
 			items = append(items, item{t, l.line})
 		} else if len(items) > 0 {
@@ -254,6 +257,11 @@ func (db *ContractDB) parseLines(p *packages.Package, file string, lines []srcLi
 		case "spec":
 			curFunc, curType = nil, nil
 			db.parseSpec(p, file, it.line, rest)
+		case "axiom":
+			curFunc, curType = nil, nil
+			if c := mk("axiom", rest); c != nil {
+				db.axioms[p.PkgPath] = append(db.axioms[p.PkgPath], c)
+			}
 		case "lemma":
 			curFunc, curType = nil, nil
 			i := strings.Index(rest, ":")
